@@ -592,6 +592,7 @@ class Emitter:
     def zero_or_nondet(s, ty, undef):
         ct = s.cty(ty)
         if isinstance(ty, (IntTy, FloatTy)):
+            if undef and s.atoms and ty.bits in (32, 64): return 'VT_undef_%d()' % ty.bits   # arbitrary value of the product class
             if undef: return 'nondet_%s()' % ct
             return '((%s)0)' % ct
         if isinstance(ty, PtrTy):
@@ -1320,7 +1321,7 @@ class FnEmitter:
         if m:
             ty = T[0]; st = s.scalar_ty(ty)
             a = s.mat(A[0], ty) if isinstance(ty, VecTy) else A[0]
-            fn = 'F%s_%d' % (m.group(1).upper(), st.bits)
+            fn = '%s_%d' % ({'sqrt': 'FSQRT', 'fabs': 'FABS'}.get(m.group(1), 'F' + m.group(1).upper()), st.bits)
             for i in range(s.lanes(ty) or 1):
                 s.emit('%s = %s(%s);' % (s.lane(d, ty, i), fn, s.lane(a, ty, i)))
             return
@@ -1560,10 +1561,16 @@ def translate(mod, entries, atoms=False, contracts=None, data_bits=32, param_bit
         ctext = contracts.get(cname(fname), '')
         body.append(sig + '\n' + ctext + '{\n  ' + '\n  '.join(fe.decls) + '\n' + '\n'.join(fe.lines) + '\n}\n')
     gl = []
+    mutable = []
     alltext = '\n'.join(body)
     for name, g in mod.globals.items():
         if re.search(r'\bg_' + re.escape(cname(name)) + r'\b', alltext):
             gl.append(emit_global(em, name, g))
+            ty, init, is_const, align = g
+            if not is_const and init is not None:
+                scalar = isinstance(ty, (IntTy, FloatTy, PtrTy))
+                zero = init[0] == 'zero' or (init[0] == 'iconst' and init[1] == 0) or init[0] == 'null'
+                mutable.append({'name': 'g_' + cname(name), 'scalar': scalar, 'zero_init': zero, 'guard': name.startswith('@_ZGV')})
     out = []
     out += em.typedef_code
     out += em.helper_code.values()
@@ -1573,6 +1580,7 @@ def translate(mod, entries, atoms=False, contracts=None, data_bits=32, param_bit
     info = dict(em.stats)
     info['functions'] = [cname(f) for f in order]
     info['externals'] = sorted(em.used_externals)
+    info['mutable_globals'] = mutable
     return '\n'.join(out) + '\n', info
 
 def main():
